@@ -22,7 +22,7 @@ func c14(tier string) int {
 	}
 	env.CheckAll(str.Programs(maxLen), []diffrun.Variant{diffrun.Plain, diffrun.Minified})
 	return finishDiff(env, "C14", tier, start,
-		"explorer program: every byte string of length <= L over a 15-byte boundary alphabet (edges of every UTF-8 decoder branch) x {len, index, all slices, range, []rune/[]byte round trips, copy/append, compare/concat with all strings of length <= 2, switch, map key}; every rune value -4096..0x110fff; integer carriers; a literal table; one digest line per (operation, length, first byte) class; plain and minified builds vs native Go",
+		"explorer program: every byte string of length <= L over a 15-byte boundary alphabet (edges of every UTF-8 decoder branch) x {len, index, all slices, range, []rune/[]byte round trips, copy/append, compare/concat with all strings of length <= 2, switch, map key}; every rune value -4096..0x110fff; integer carriers; conversions between strings and slices for every combination of defined slice type, defined element type (two levels) and defined string type, both directions; a literal table; one digest line per (operation, length, first byte) class; plain and minified builds vs native Go",
 		[]string{"reference = native Go on the same source", "digest collisions (2x32-bit lanes) are ignored"},
 		map[string]any{"max_string_length": maxLen})
 }
